@@ -2,46 +2,221 @@
   Proofs.C10 — lemmas and proofs behind Props/C10.lean.
 -/
 import Spec.Counts
+import Proofs.C10Keys
+import Proofs.C10Update
 
 namespace MongoModel.Proofs.C10
 open MongoModel MongoModel.Spec
+open MongoModel.Proofs.C10Lemmas MongoModel.Proofs.C09Lemmas
 
 theorem find_is_selection (now : Int) (c c1 : Coll) (fs : Fields) (he : expire now c = .ok c1)
     (hne : c1.docs ≠ []) :
-    (findColl now c (.doc fs)).2 = (selectDocs (patchDT (.doc fs)) c1.docs).map (·.map (·.2)) := by sorry
+    (findColl now c (.doc fs)).2 = (selectDocs (patchDT (.doc fs)) c1.docs).map (·.map (·.2)) := by
+  simp only [findColl]
+  rw [iter_eq now c c1 _ he hne]
+  cases selectDocs (patchDT (.doc fs)) c1.docs <;> rfl
 
 theorem count_eq_find (now : Int) (c : Coll) (fs : Fields) :
-    (countColl now c (.doc fs) 0 none).2 = (findColl now c (.doc fs)).2.map (fun ms => (ms.length : Int)) := by sorry
+    (countColl now c (.doc fs) 0 none).2 = (findColl now c (.doc fs)).2.map (fun ms => (ms.length : Int)) := by
+  simp only [countColl, findColl]
+  cases iterDocuments now c (patchDT (.doc fs)) with
+  | error e => rfl
+  | ok r =>
+    obtain ⟨c1, ms⟩ := r
+    simp only [Except.map, Except.ok.injEq]
+    omega
 
 theorem count_skip_limit (now : Int) (c : Coll) (fs : Fields) (skip lim : Int) (hl : 0 < lim) :
     (countColl now c (.doc fs) skip (some (.int lim))).2 =
-      (findColl now c (.doc fs)).2.map (fun ms => min (max ((ms.length : Int) - skip) 0) lim) := by sorry
+      (findColl now c (.doc fs)).2.map (fun ms => min (max ((ms.length : Int) - skip) 0) lim) := by
+  have hl' : ¬ lim ≤ 0 := by omega
+  simp only [countColl, findColl, hl', if_false]
+  cases iterDocuments now c (patchDT (.doc fs)) with
+  | error e => rfl
+  | ok r =>
+    obtain ⟨c1, ms⟩ := r
+    rfl
+
+theorem delete_eq (now : Int) (c c1 : Coll) (fs : Fields) (sel : List (Val × Val)) (multi : Bool)
+    (he : expire now c = .ok c1) (hne : c1.docs ≠ [])
+    (hs : selectDocs (patchDT (.doc fs)) c1.docs = .ok sel) :
+    deleteColl now c (.doc fs) multi =
+      (((((if multi then sel else sel.take 1).map (·.2)).filterMap idOf).foldl
+            (fun acc k => acc.delDoc k) c1),
+       .ok (((if multi then sel else sel.take 1).map (·.2)).filterMap idOf).length) := by
+  unfold deleteColl
+  rw [patch_doc_twice]
+  have hi := iter_eq now c c1 (patchDT (.doc fs)) he hne
+  rw [hs] at hi
+  rw [patch_doc] at hi ⊢
+  simp only [hi, Except.map]
+  cases multi
+  · simp only [Bool.false_eq_true, if_false, List.map_take]
+    rfl
+  · simp only [if_true]
+    rfl
+
+theorem inv_expired (now : Int) (c c1 : Coll) (he : expire now c = .ok c1) (hi : IdInv c)
+    (hg : GoodKeys c) : DK c1.docs ∧ GK c1.docs ∧ KI c1.docs := by
+  have hsub := (expire_ok now c c1 he).1
+  exact ⟨DK.sublist hi.1 hsub, GK.subset hg (fun p hp => hsub.subset hp),
+    KI.subset hi.2 (fun p hp => hsub.subset hp)⟩
 
 theorem delete_many_eq_find (now : Int) (c c1 : Coll) (fs : Fields) (sel : List (Val × Val))
     (he : expire now c = .ok c1) (hne : c1.docs ≠ []) (hi : IdInv c) (hg : GoodKeys c)
     (hs : selectDocs (patchDT (.doc fs)) c1.docs = .ok sel) :
     (deleteColl now c (.doc fs) true).2 = .ok sel.length ∧
     (deleteColl now c (.doc fs) true).1.docs = c1.docs.filter (fun p => !sel.any (fun q => pyEq q.1 p.1)) ∧
-    (deleteColl now c (.doc fs) true).1.docs.length + sel.length = c1.docs.length := by sorry
+    (deleteColl now c (.doc fs) true).1.docs.length + sel.length = c1.docs.length := by
+  obtain ⟨hd, hgk, hk⟩ := inv_expired now c c1 he hi hg
+  rw [delete_eq now c c1 fs sel true he hne hs]
+  simp only [if_true]
+  obtain ⟨h1, h2, h3⟩ := delete_victims c1 sel (select_sublist _ _ _ hs) hd hgk hk
+  exact ⟨by rw [h1], h2, h3⟩
 
 theorem delete_one_eq_find (now : Int) (c c1 : Coll) (fs : Fields) (sel : List (Val × Val))
     (he : expire now c = .ok c1) (hne : c1.docs ≠ []) (hi : IdInv c) (hg : GoodKeys c)
     (hs : selectDocs (patchDT (.doc fs)) c1.docs = .ok sel) :
     (deleteColl now c (.doc fs) false).2 = .ok (min sel.length 1) ∧
-    (deleteColl now c (.doc fs) false).1.docs.length + min sel.length 1 = c1.docs.length := by sorry
+    (deleteColl now c (.doc fs) false).1.docs.length + min sel.length 1 = c1.docs.length := by
+  obtain ⟨hd, hgk, hk⟩ := inv_expired now c c1 he hi hg
+  rw [delete_eq now c c1 fs sel false he hne hs]
+  simp only [Bool.false_eq_true, if_false]
+  obtain ⟨h1, _, h3⟩ := delete_victims c1 (sel.take 1)
+    ((List.take_sublist 1 sel).trans (select_sublist _ _ _ hs)) hd hgk hk
+  have hl : (sel.take 1).length = min sel.length 1 := by
+    rw [List.length_take]; omega
+  rw [hl] at h1 h3
+  exact ⟨by rw [h1], h3⟩
+
+theorem pre_eq (now : Int) (c c1 : Coll) (spec : Val) (he : expire now c = .ok c1)
+    (hne : c1.docs ≠ []) :
+    (do
+      let c1 ← expire now c
+      if c1.docs.isEmpty then
+        let _ ← filterApplies spec (.doc [])
+      expire now c1) = Except.ok c1 := by
+  have hemp : c1.docs.isEmpty = false := by
+    cases hd : c1.docs with
+    | nil => exact absurd hd hne
+    | cons a l => rfl
+  rw [he]
+  simp only [bind, Except.bind, hemp, Bool.false_eq_true, if_false]
+  exact expire_idem now c c1 he
+
+theorem linv_start (now : Int) (c c1 : Coll) (he : expire now c = .ok c1) (hk : KeysDistinct c)
+    (hg : GoodKeys c) : LInv now c1.ttlIndexes c1.docs c1 := by
+  have he' := he
+  rw [expire_eq_pass] at he'
+  obtain ⟨hsub, hmeta, _, hclean⟩ := pass_ok now _ c c1 he'
+  refine ⟨DK.sublist hk hsub, GK.subset hg (fun p hp => hsub.subset hp), rfl, ?_⟩
+  intro p hp
+  refine ⟨hp, ?_⟩
+  intro ix hix f s hfs
+  rw [hmeta.2.1] at hix
+  exact hclean ix hix f s hfs p hp
+
+theorem update_count (cfg : Cfg) (now : Int) (c c1 c' : Coll) (fs : Fields) (u : Val)
+    (sel : List (Val × Val)) (res : UpdateResult) (multi : Bool)
+    (he : expire now c = .ok c1) (hne : c1.docs ≠ []) (hk : KeysDistinct c) (hg : GoodKeys c)
+    (hs : selectDocs (patchDT (.doc fs)) c1.docs = .ok sel)
+    (h : applyUpdateColl cfg now c (.doc fs) u false multi = (c', .ok res)) :
+    res.n = (if multi then sel.length else min sel.length 1) ∧ res.nModified ≤ res.n ∧
+      res.upserted = none := by
+  unfold applyUpdateColl at h
+  extract_lets spec document nowV at h
+  have hspec : spec = .doc (patchFields fs) := patch_doc fs
+  have hs' : selectDocs spec c1.docs = .ok sel := hs
+  clear_value spec document nowV
+  subst hspec
+  rw [pre_eq now c c1 _ he hne] at h
+  split at h
+  · rename_i _ _ ss dfs hss
+    split at h
+    · cases h
+    · dsimp only at h
+      generalize hloop : updateLoop now (Val.doc (patchFields fs)) (Val.doc dfs) nowV multi
+        c1.docs c1 0 0 = lr at h
+      obtain ⟨c3, r⟩ := lr
+      dsimp only at h
+      cases r with
+      | error e => cases h
+      | ok mu =>
+        obtain ⟨matched, updated⟩ := mu
+        simp only [Bool.not_false, Bool.true_or, if_true, Prod.mk.injEq, Except.ok.injEq] at h
+        obtain ⟨_, rfl⟩ := h
+        have hinv := linv_start now c c1 he hk hg
+        obtain ⟨h1, h2⟩ := loop_count now _ (.doc dfs) nowV multi c1.ttlIndexes c1.docs c1 0 0
+          c3 matched updated sel hinv.dk hinv hs' hloop (Nat.le_refl 0)
+        refine ⟨by simpa using h1, ?_, rfl⟩
+        dsimp only
+        split <;> omega
+  · cases h
 
 theorem update_many_matched_eq_find (cfg : Cfg) (now : Int) (c c1 c' : Coll) (fs : Fields) (u : Val)
     (sel : List (Val × Val)) (res : UpdateResult)
     (he : expire now c = .ok c1) (hne : c1.docs ≠ []) (hi : IdInv c) (hg : GoodKeys c)
     (hs : selectDocs (patchDT (.doc fs)) c1.docs = .ok sel)
     (h : applyUpdateColl cfg now c (.doc fs) u false true = (c', .ok res)) :
-    res.n = sel.length ∧ res.nModified ≤ res.n ∧ res.upserted = none := by sorry
+    res.n = sel.length ∧ res.nModified ≤ res.n ∧ res.upserted = none := by
+  simpa using update_count cfg now c c1 c' fs u sel res true he hne hi.1 hg hs h
 
-theorem update_one_target_iff (cfg : Cfg) (now : Int) (c c1 c' : Coll) (fs : Fields) (u : Val)
+/-- corrected `update_one_target_iff`: store keys are pairwise distinct and well behaved -/
+theorem update_one_target_iff_alt (cfg : Cfg) (now : Int) (c c1 c' : Coll) (fs : Fields) (u : Val)
     (sel : List (Val × Val)) (res : UpdateResult)
-    (he : expire now c = .ok c1) (hne : c1.docs ≠ [])
+    (he : expire now c = .ok c1) (hne : c1.docs ≠ []) (hk : KeysDistinct c) (hg : GoodKeys c)
     (hs : selectDocs (patchDT (.doc fs)) c1.docs = .ok sel)
     (h : applyUpdateColl cfg now c (.doc fs) u false false = (c', .ok res)) :
-    res.n = min sel.length 1 := by sorry
+    res.n = min sel.length 1 := by
+  simpa using (update_count cfg now c c1 c' fs u sel res false he hne hk hg hs h).1
+
+/-- the same under the hypotheses of `update_many_matched_eq_find` -/
+theorem update_one_target_iff_alt' (cfg : Cfg) (now : Int) (c c1 c' : Coll) (fs : Fields) (u : Val)
+    (sel : List (Val × Val)) (res : UpdateResult)
+    (he : expire now c = .ok c1) (hne : c1.docs ≠ []) (hi : IdInv c) (hg : GoodKeys c)
+    (hs : selectDocs (patchDT (.doc fs)) c1.docs = .ok sel)
+    (h : applyUpdateColl cfg now c (.doc fs) u false false = (c', .ok res)) :
+    res.n = min sel.length 1 :=
+  update_one_target_iff_alt cfg now c c1 c' fs u sel res he hne hi.1 hg hs h
+
+/-! ### the counterexample to `update_one_target_iff` as stated
+
+Two documents stored under the same key `1` (so `KeysDistinct` fails): the filter `{a: 2}` selects
+the second one, but the loop looks both snapshot entries up by key, finds the first document both
+times, and matches nothing. -/
+
+def cexColl : Coll :=
+  { docs := [(.int 1, .doc [("_id", .int 1), ("a", .int 1)]),
+             (.int 1, .doc [("_id", .int 1), ("a", .int 2)])] }
+
+def cexUpdate : Val := .doc [("$set", .doc [("x", .int 1)])]
+
+theorem update_one_target_iff_counterexample :
+    ¬ (∀ (cfg : Cfg) (now : Int) (c c1 c' : Coll) (fs : Fields) (u : Val)
+        (sel : List (Val × Val)) (res : UpdateResult),
+        expire now c = .ok c1 → c1.docs ≠ [] →
+        selectDocs (patchDT (.doc fs)) c1.docs = .ok sel →
+        applyUpdateColl cfg now c (.doc fs) u false false = (c', .ok res) →
+        res.n = min sel.length 1) := by
+  intro H
+  have k1 : (match applyUpdateColl {} 0 cexColl (.doc [("a", .int 2)]) cexUpdate false false with
+      | (_, .ok r) => r.n == 0
+      | _ => false) = true := by decide +kernel
+  have k2 : (match selectDocs (patchDT (.doc [("a", .int 2)])) cexColl.docs with
+      | .ok sel => sel.length == 1
+      | _ => false) = true := by decide +kernel
+  generalize hx : applyUpdateColl {} 0 cexColl (.doc [("a", .int 2)]) cexUpdate false false = x at k1
+  obtain ⟨c', r⟩ := x
+  cases r with
+  | error e => simp at k1
+  | ok res =>
+    generalize hy : selectDocs (patchDT (.doc [("a", .int 2)])) cexColl.docs = y at k2
+    cases y with
+    | error e => simp at k2
+    | ok sel =>
+      simp only [beq_iff_eq] at k1 k2
+      have := H {} 0 cexColl cexColl c' [("a", .int 2)] cexUpdate sel res rfl (by simp [cexColl]) hy hx
+      rw [k1, k2] at this
+      cases this
 
 end MongoModel.Proofs.C10
